@@ -448,7 +448,7 @@ func dialFault(x *explore.X) {
 
 func tlsFault(x *explore.X) {
 	kind := []string{"GET-inside-MITM", "MITM-GET-via-upstream"}[x.ChooseFree("kind", 2)]
-	fault := x.ChooseFree("fault", 7)
+	fault := x.ChooseFree("fault", 10)
 	e := setup(x, kind, nil, nil)
 	if e == nil {
 		return
@@ -473,7 +473,8 @@ func tlsFault(x *explore.X) {
 		hop.Send([]byte("HTTP/1.1 200 OK\r\n\r\n"))
 	}
 	other := world.NewPKI("some other CA")
-	names := []string{"garbage (plain HTTP reply)", "close during handshake", "certificate for another name", "expired certificate", "certificate of an untrusted CA", "reset during handshake", "genuine ServerHello record, then a plain HTTP reply"}
+	names := []string{"garbage (plain HTTP reply)", "close during handshake", "certificate for another name", "expired certificate", "certificate of an untrusted CA", "reset during handshake", "genuine ServerHello record, then a plain HTTP reply",
+		"fatal alert handshake_failure in answer to the ClientHello", "fatal alert internal_error in answer to the ClientHello", "a TLS server that speaks no protocol version the proxy offers (its own protocol_version alert)"}
 	var tp *world.TLSPeer
 	switch fault {
 	case 0:
@@ -502,6 +503,13 @@ func tlsFault(x *explore.X) {
 			return
 		}
 		hop.Send(append(sh, "HTTP/1.1 400 Bad Request\r\nContent-Length: 0\r\n\r\n"...))
+	case 7, 8:
+		// (round 9) the peer answers the ClientHello with a fatal alert: crypto/tls reports it as a net.OpError whose Op is
+		// "remote error", a kind of error no dial or read failure ever has
+		hop.Send([]byte{21, 3, 3, 0, 2, 2, map[int]byte{7: 40, 8: 80}[fault]})
+		hop.Close()
+	case 9:
+		tp = world.TLSServer(hop, &tls.Config{MaxVersion: tls.VersionTLS11, Certificates: []tls.Certificate{e.pki.Leaf([]string{originHost}, -time.Hour, time.Hour)}})
 	}
 	world.Settle(30 * time.Second)
 	what := fmt.Sprintf("%s, TLS fault: %s", kind, names[fault])
@@ -518,6 +526,76 @@ func tlsFault(x *explore.X) {
 	} else {
 		e.finish(x, hop)
 	}
+}
+
+// ---- C2 (round 9): a SOCKS5 upstream proxy that fails ------------------------------------------------------------------
+
+// socksFault: the upstream is a SOCKS5 proxy; its negotiation fails in every way of a small menu (no acceptable method,
+// a reply code other than success, closed or reset at every stage, something that is not SOCKS at all, a success reply
+// cut short). The client gets one complete error response with X-Forwarder-Error; other connections are served.
+func socksFault(x *explore.X) {
+	kind := []string{"GET", "CONNECT", "GET-inside-MITM"}[x.ChooseFree("kind", 3)]
+	fault := x.ChooseFree("fault", 9)
+	e := setup(x, kind, nil, func(o *world.Options) {
+		o.Upstream = "socks5://socks.test:1080"
+		o.DirectDomains = []string{`^ok\.test$`} // (the probe after the fault goes to its origin directly)
+	})
+	if e == nil {
+		return
+	}
+	srv, _ := e.w.Server("socks.test:1080")
+	if e.mitm {
+		if !e.sendRequest(x) {
+			return
+		}
+	} else {
+		if !e.sendRequest(x) {
+			return
+		}
+	}
+	names := []string{"no acceptable authentication method (05 FF)", "reply 05 (connection refused)", "reply 01 (general failure)", "reply 04 (host unreachable)",
+		"closed after the method selection", "reset after the greeting", "an HTTP reply instead of SOCKS", "success reply cut after 4 octets, then closed", "closed at once"}
+	// the dial is retried (3 attempts): every attempt meets the same fault
+	for attempt := 0; attempt < 4; attempt++ {
+		hop := srv.Accept()
+		if hop == nil {
+			if attempt == 0 {
+				x.Failf("harness/no-dial", "the SOCKS5 upstream was not dialled")
+				e.finish(x)
+				return
+			}
+			break
+		}
+		ok := []byte{5, 0}
+		switch fault {
+		case 0:
+			hop.Send([]byte{5, 0xFF})
+		case 1, 2, 3:
+			hop.Send(ok)
+			hop.Send([]byte{5, map[int]byte{1: 5, 2: 1, 3: 4}[fault], 0, 1, 0, 0, 0, 0, 0, 0})
+		case 4:
+			hop.Send(ok)
+			hop.Close()
+		case 5:
+			hop.Abort()
+		case 6:
+			hop.Send([]byte("HTTP/1.1 400 Bad Request\r\nContent-Length: 0\r\n\r\n"))
+		case 7:
+			hop.Send(ok)
+			hop.Send([]byte{5, 0, 0, 1})
+			hop.Close()
+		case 8:
+			hop.Close()
+		}
+		world.Settle(5 * time.Second)
+	}
+	world.Settle(2 * time.Minute)
+	what := fmt.Sprintf("%s through a SOCKS5 upstream: %s", kind, names[fault])
+	x.Logf("%s; dials %v", what, e.w.Net.Dials())
+	e.expectCleanError(x, what, 0, "")
+	probe(x, e.w)
+	x.Outcome(fmt.Sprintf("%s socksfault%d", kind, fault))
+	e.finish(x)
 }
 
 // serverHelloFor returns the first TLS record (the ServerHello) a real crypto/tls server writes in answer to clientHello.
@@ -788,6 +866,7 @@ func TestC12(t *testing.T) {
 	s.Add(explore.Scenario{Name: "terse-replies", Remote: true, Run: run(terseReplies)})
 	s.Add(explore.Scenario{Name: "dial", Remote: true, Run: run(dialFault)})
 	s.Add(explore.Scenario{Name: "tls", Remote: true, Run: run(tlsFault)})
+	s.Add(explore.Scenario{Name: "socks5-upstream", Remote: true, Run: run(socksFault)})
 	s.Add(explore.Scenario{Name: "connect-reply", Remote: true, Run: run(connectReply)})
 	s.Add(explore.Scenario{Name: "hostile", Remote: true, MaxDev: map[string]int{"quick": 0, "thorough": 2}, Run: run(hostileInput)})
 	s.Main()
